@@ -7,14 +7,16 @@ Model of `aotools/opticalpropagation.py` (C10, C11) — Mathlib-free, computable
 * Every `numpy.exp(1j * θ)` of the code is `cis θ` with `θ : K` the real expression written in the code, in the code's
   order of operations; the `1e-10` added to `r1sq` in `angularSpectrum` is kept.
 * Arrays are index functions `Nat → Nat → C` (first index = axis 0 = row); `numpy.meshgrid(v, v)` returns
-  `x[a,b] = v[b]`, `y[a,b] = v[a]`.  `numpy.arange(-N/2, N/2)[i] = -N/2 + i` (N entries, for even and odd N).
+  `x[a,b] = v[b]`, `y[a,b] = v[a]`.  Every coordinate grid is `(numpy.arange(N) - N//2) * d` (repaired code,
+  fixes/C11-odd-grid-centre.diff): sample `N//2` sits at the origin, exactly where `ft2`/`ift2` (C09) put it, for even AND odd `N`
+  (at the pinned commit the grids were `numpy.arange(-N/2, N/2) * d`: identical for even `N`, half a sample off-centre for odd `N`).
 * The FFT kernel is the twiddle table pair `w`, `wi` of `Model/Fourier.lean`; `ft2`/`ift2` are the C09 models.
 * Intermediate arrays are materialised (`tabulate`, read back with `idx`) where the Python code materialises them, so that
   the executable instance costs O(N⁴) per transform instead of O(N⁶); every propagator `p` is `idx N (pA …)` with `pA` returning
   the materialised output array (what the driver prints); `Lemmas/Propagation.lean` proves `idx N (tabulate N f) a b = f a b`
   for `a, b < N`.
-* `twoStepFresnel` models the REPAIRED code (fixes/C11-twostep-orientation.diff): `twoStepFresnel_pinned` is the
-  function as it stood at the pinned commit (no final point reflection).
+* `twoStepFresnel` models the REPAIRED code (fixes/C11-twostep-orientation.diff, C11-odd-grid-centre.diff,
+  C11-twostep-unit-magnification.diff): `twoStepFresnel_pinned` is the function without the final point reflection.
 -/
 import AoVerif.Model.Fourier
 namespace AoVerif.Propagation
@@ -41,18 +43,22 @@ def idx {C : Type} [Inhabited C] (N : Nat) (arr : Array C) : Nat → Nat → C :
 /-- `tab2 N f a b = f a b` for `a, b < N` (`Lemmas/Propagation.lean`) -/
 def tab2 {C : Type} [Inhabited C] (N : Nat) (f : Nat → Nat → C) : Nat → Nat → C := idx N (tabulate N f)
 
-/-- point reflection about the centre sample `N/2` of an even grid: `numpy.roll(U[::-1, ::-1], 1, axis=(0, 1))`,
-i.e. `out[a, b] = U[(N - a) % N, (N - b) % N]` -/
+/-- source index of the point reflection about the centre sample `N/2` (Nat division): `2 (N/2) − a (mod N)`, i.e. `(N − a) % N` for
+even `N` and `N − 1 − a` for odd `N` -/
+def reflIdx (N a : Nat) : Nat := (2 * (N / 2) - a) % N
+
+/-- point reflection about the centre sample `N//2`: `numpy.roll(U[::-1, ::-1], 1 - N % 2, axis=(0, 1))`,
+i.e. `out[a, b] = U[reflIdx a, reflIdx b]` (`roll(rev, s)[a] = rev[(a − s) mod N] = U[N − 1 − ((a − s) mod N)]`, `s = 1 − N % 2`) -/
 def reflect {C : Type} (N : Nat) (U : Nat → Nat → C) : Nat → Nat → C :=
-  fun a b => U ((N - a) % N) ((N - b) % N)
+  fun a b => U (reflIdx N a) (reflIdx N b)
 
 section
 variable {K C : Type} [Add K] [Sub K] [Mul K] [Div K] [Neg K] [NatCast K] [OfScientific K] [HPow K Nat K] [Transc K]
   [LE K] [DecidableLE K] [LT K] [DecidableLT K]
   [Add C] [Mul C] [Div C] [OfScientific C] [Inhabited C] [CField K C]
 
-/-- `numpy.arange(-N/2, N/2)[i]` -/
-def gridIdx (N : Nat) (i : Nat) : K := -((N : Nat) : K) / ((2 : Nat) : K) + ((i : Nat) : K)
+/-- `(numpy.arange(N) - N//2)[i]` (an integer array, converted when multiplied by the spacing) -/
+def gridIdx (N : Nat) (i : Nat) : K := ((i : Nat) : K) - ((N / 2 : Nat) : K)
 
 /-- Python `z == 0` for floats (true for ±0, false for NaN) -/
 def isZero (z : K) : Prop := z ≤ ((0 : Nat) : K) ∧ ((0 : Nat) : K) ≤ z
@@ -119,7 +125,8 @@ def oneStepFresnel (N : Nat) (w : Nat → C) (U : Nat → Nat → C) (wvl d1 z :
 
 /-! ### twoStepFresnel -/
 
-/-- intermediate-plane distance: `try: z/(1-m)  except ZeroDivisionError: z/(1+m)` -/
+/-- intermediate-plane distance: `if 1 - m == 0: z/(1+m)  else: z/(1-m)` (fixes/C11-twostep-unit-magnification.diff; at the pinned
+commit `try: z/(1-m) except ZeroDivisionError: z/(1+m)`, the same for Python floats, NaN output for NumPy scalars) -/
 def twoStepDz1 (d1 d2 z : K) : K :=
   let m := d2 / d1
   if isZero (((1 : Nat) : K) - m) then z / (((1 : Nat) : K) + m) else z / (((1 : Nat) : K) - m)
@@ -128,7 +135,7 @@ def twoStepDz1 (d1 d2 z : K) : K :=
 def twoStepD1a (N : Nat) (wvl d1 d2 z : K) : K :=
   wvl * Transc.abs (twoStepDz1 d1 d2 z) / (((N : Nat) : K) * d1)
 
-/-- `twoStepFresnel` as it stood at the pinned commit -/
+/-- `twoStepFresnel` without the final point reflection (for even `N`: the function as it stood at the pinned commit) -/
 def twoStepFresnel_pinnedA (N : Nat) (w : Nat → C) (U : Nat → Nat → C) (wvl d1 d2 z : K) : Array C :=
   let Dz1 := twoStepDz1 d1 d2 z
   let d1a := twoStepD1a N wvl d1 d2 z
@@ -140,7 +147,7 @@ def twoStepFresnel_pinnedA (N : Nat) (w : Nat → C) (U : Nat → Nat → C) (wv
 def twoStepFresnel_pinned (N : Nat) (w : Nat → C) (U : Nat → Nat → C) (wvl d1 d2 z : K) : Nat → Nat → C :=
   idx N (twoStepFresnel_pinnedA N w U wvl d1 d2 z)
 
-/-- the repaired `twoStepFresnel`: `if Dz1 * Dz2 < 0: Uout = numpy.roll(Uout[::-1, ::-1], 1, axis=(0, 1))` -/
+/-- the repaired `twoStepFresnel`: `if Dz1 * Dz2 < 0: Uout = numpy.roll(Uout[::-1, ::-1], 1 - N % 2, axis=(0, 1))` -/
 def twoStepFresnelA (N : Nat) (w : Nat → C) (U : Nat → Nat → C) (wvl d1 d2 z : K) : Array C :=
   let Dz1 := twoStepDz1 d1 d2 z
   let Dz2 := z - Dz1
@@ -151,7 +158,7 @@ def twoStepFresnel (N : Nat) (w : Nat → C) (U : Nat → Nat → C) (wvl d1 d2 
 
 /-! ### lensAgainst -/
 
-/-- `x2 = wvl * f * fX`, `fX = arange(-N/2, N/2)/(N*d1)`; phase `k/(2*f) * (x2**2 + y2**2)` -/
+/-- `x2 = wvl * f * fX`, `fX = (arange(N) - N//2)/(N*d1)`; phase `k/(2*f) * (x2**2 + y2**2)` -/
 def lensTheta (N : Nat) (wvl d1 f : K) (a b : Nat) : K :=
   let fX := fun i : Nat => gridIdx N i / (((N : Nat) : K) * d1)
   wavevector wvl / (((2 : Nat) : K) * f) * ((wvl * f * fX b) ^ 2 + (wvl * f * fX a) ^ 2)
